@@ -130,7 +130,7 @@ def shapes(chk, tier, rnd):
     ]
     if thorough:
         more = []
-        for i in range(34):
+        for i in range(24):
             pool = [plain, psim, lookups, hashes][i % 4]
             cpool = [strong, layered, strong, strong_zk, layered, weak][i % 6]
             outer = [{}, {"nch": 3}, {"cap": 0}, {"keccak": True}, {"zk": True}, {"width": "wide"}, {"cap": 2, "strat": "const", "arities": [3, 4]}][i % 7]
@@ -274,7 +274,7 @@ def run(chk, tier):
     sc = scenario_classes(cats_lines)
     for r in rows:
         r["classes"] = sc
-        r["per_class"] = 4 if thorough else (1 if r["cfg"]["zk"] else 2)
+        r["per_class"] = (2 if r["cfg"]["zk"] else 3) if thorough else (1 if r["cfg"]["zk"] else 2)
         r["sample"] = 3 if thorough else 2
         r["selftest"] = r["slot"] == 0
     res = run_parallel(rows, "c06_run", 4 if thorough else 3)
